@@ -1,6 +1,7 @@
 /- Line-protocol driver for the C06 model (published XML Schema: generator, compiles, reference validator). -/
 import Driver.XmlCodec
 import SpyneModel.SchemaSpec
+import SpyneModel.SchemaAttr
 import SpyneModel.Generated.Facts06
 open Lean SpyneModel SpyneModel.Xml SpyneModel.Schema Driver XmlCodec
 
@@ -57,6 +58,59 @@ def schemaJson (S : Schema) : Json :=
     ("elements", Json.arr (S.elements.map (fun e => Json.arr #[keyJson e.1, keyJson e.2])).toArray),
     ("imports", Json.arr (S.imports.map (fun e => Json.arr #[strJson e.1, strJson e.2])).toArray)]
 
+def prefMapOf (j : Json) : PrefMap :=
+  (getArr j "prefixes").toList.map (fun e =>
+    match e with
+    | .arr #[.str ns, .str p] => (ns.toList, p.toList)
+    | _ => ([], []))
+
+/-- the documents of the set: import order, and every named `type=` / `base=` as it is written -/
+def docsJson (pm : PrefMap) (S : Schema) : Json :=
+  Json.mkObj [
+    ("docs", Json.arr (S.docs.map (fun d => Json.arr #[strJson d.tns, Json.arr (d.imports.map strJson).toArray])).toArray),
+    ("qnames", Json.arr (S.namedRefs.map (fun r => Json.arr #[strJson r.1, keyJson r.2,
+      (match qnameOf pm r.2 with
+       | some q => strJson (q.1 ++ ':' :: q.2)
+       | none => Json.null),
+      Json.bool ((qnameOf pm r.2).bind (resolveQ pm) == some r.2)])).toArray),
+    ("prefixesOk", Json.bool (prefixesOk pm S)),
+    ("importsHaveDocs", Json.bool S.importsHaveDocs)]
+
+def appAOf (j : Json) : AppA :=
+  let A := appOf (j.setObjVal! "iface" (Json.mkObj [("classes", Json.arr #[]), ("others", Json.arr #[]), ("tns", Json.str "")]))
+  { facts := A.facts, leaf := A.leaf, enumKeys := A.enumKeys, values := A.values,
+    iface := ifaceAOf (getObj j "iface"),
+    modNs := (getArr j "modNs").toList.map (fun e =>
+      match e with
+      | .arr #[.str t, .str ns] => (t.toList, ns.toList)
+      | _ => ([], [])),
+    choice := (getArr j "choice").toList.map (fun e =>
+      match e with
+      | .arr #[.str ns, .str cn, .str k, .str g] => (((ns.toList, cn.toList), k.toList), g.toList)
+      | _ => ((([], []), []), [])) }
+
+def itemJson (types : List (Text × TypeRef)) : Item → Json
+  | .one k o => Json.arr #["one", strJson k.2, (match types.lookup k.2 with | some t => refJson t | none => Json.null), occJson o]
+  | .choice alts => Json.arr #["choice", Json.arr (alts.map (fun a =>
+      Json.arr #[strJson a.1.2, (match types.lookup a.1.2 with | some t => refJson t | none => Json.null), occJson a.2])).toArray]
+
+/-- the extended documents: per complexType its base, the items of its own sequence, its own
+    attributes and the simpleContent base -/
+def schemaXJson (S : SchemaX) : Json :=
+  Json.mkObj [
+    ("tns", strJson S.core.tns),
+    ("simple", Json.arr ((S.core.simple ++ S.xsimple).map (fun e =>
+      Json.arr #[keyJson e.1, strJson e.2.base.name, Json.arr (e.2.facets.map facetJson).toArray])).toArray),
+    ("complex", Json.arr (S.core.complex.map (fun e =>
+      let x : ClassExt := (S.ext.lookup e.1).getD {}
+      Json.arr #[keyJson e.1, (match e.2.base with | some b => keyJson b | none => Json.null),
+                 Json.arr ((ownItems S.choiceInPlace e.1.1 e.2.particles x.choice).map
+                   (itemJson (e.2.particles.map (fun p => (p.name, p.type))))).toArray,
+                 Json.arr (x.attrs.map (fun a => Json.arr #[strJson a.name, refJson a.type, Json.bool a.required])).toArray,
+                 (match x.data with | some t => refJson t | none => Json.null)])).toArray),
+    ("elements", Json.arr (S.core.elements.map (fun e => Json.arr #[keyJson e.1, keyJson e.2])).toArray),
+    ("imports", Json.arr (S.imports.map (fun e => Json.arr #[strJson e.1, strJson e.2])).toArray)]
+
 def builtinOfName (s : String) : Builtin :=
   match s with
   | "string" => .string | "boolean" => .boolean | "integer" => .integer .unbounded
@@ -86,9 +140,17 @@ def step (j : Json) : Json :=
     let S := gen A
     Json.mkObj [("schema", schemaJson S), ("compiles", Json.bool S.compiles), ("wf", Json.bool (App.wf A)),
                 ("noClash", Json.bool (App.noClash A)), ("resolvesOk", Json.bool (App.resolvesOk A)),
+                ("sameNs", Json.bool (App.sameNsChains A)), ("set", docsJson (prefMapOf j) S),
                 ("wfparts", Json.arr (A.allClasses.map (fun C => Json.arr #[strJson C.name,
                    Json.bool (chainOk A.iface (A.iface.classes.length + 1) C), Json.bool (namesNodup C.fields),
                    Json.bool (fieldsWf C.fields), Json.bool ((ownFields A.iface C).all (fun f => arrNsOk A C.ns C.name f.1 f.2))])).toArray)]
+  | "genA" =>
+    let A := appAOf j
+    let S := genA A
+    Json.mkObj [("schema", schemaXJson S), ("compiles", Json.bool S.compiles), ("wfA", Json.bool (A.wf && A.facts.dataTypeDefined)), ("coreWf", Json.bool (App.wf A.elemApp))]
+  | "validA" =>
+    let S := genA (appAOf j)
+    Json.mkObj [("ok", Json.arr ((getArr j "docs").toList.map (fun d => Json.bool (S.valid (nodeOf d)))).toArray)]
   | "valid" =>
     let S := gen (appOf j)
     Json.mkObj [("ok", Json.arr ((getArr j "docs").toList.map (fun d => Json.bool (S.valid (nodeOf d)))).toArray)]
@@ -109,7 +171,7 @@ def step (j : Json) : Json :=
                   ("common", Json.bool (commonForm F X A.tns A.tns t x)),
                   -- the common form the PROPERTY speaks of: xsi:nil and the empty string read as XSD reads them
                   ("commonGood", Json.bool (commonForm F { X with nilRule := .xsdBoolean, emptyStringText := true } A.tns A.tns t x)),
-                  ("denote", Json.bool (validS (denote (primFacetsA A) A.tns A.tns t) false x))])).toArray)]
+                  ("denote", Json.bool (validS (denoteG A A.tns t) false x))])).toArray)]
   | "conformsX" =>
     -- the hypotheses of `emitted_valid` on a value
     let t := tyOf (getObj j "ty")
